@@ -31,6 +31,67 @@ template <typename T> static T note(T u)
     return T(1);
 }
 
+// an engine whose range is not a power of two and that publishes its stream position: what a canonical number costs (three raw outputs in
+// long double for 2^32 - 5 values, two in double for 2^27 - 39 values) is measured by the driver, not asked from the library
+static thread_local long long last_pos = 0;
+template <unsigned long long HI>
+struct pos_engine
+{
+    using result_type = unsigned long long;
+    static constexpr result_type min() { return 1; }
+    static constexpr result_type max() { return HI; }
+    unsigned long long pos_;
+    pos_engine() : pos_(0) {}
+    result_type operator()() { unsigned long long n = pos_++; last_pos = (long long) pos_; return 1 + (n * 2654435761ULL + 12345ULL) % HI; }
+    void discard(unsigned long long n) { pos_ += n; }
+    unsigned long long pos() const { return pos_; }
+    friend bool operator==(pos_engine const& a, pos_engine const& b) { return a.pos_ == b.pos_; }
+    friend bool operator!=(pos_engine const& a, pos_engine const& b) { return !(a == b); }
+    friend std::ostream& operator<<(std::ostream& o, pos_engine const& e) { return o << e.pos_; }
+    friend std::istream& operator>>(std::istream& i, pos_engine& e) { return i >> e.pos_; }
+};
+template <typename T, typename E> static long long raw_per_number()
+{
+    E e;
+    (void) std::generate_canonical<T, std::numeric_limits<T>::digits>(e);
+    return (long long) e.pos();
+}
+template <typename T, typename E>
+static void emit_odd(int kind, std::size_t t, int w, unsigned long long seed, char const* src)
+{
+    long long const k = raw_per_number<T, E>();
+    std::vector<rank_obs> o((std::size_t) w);
+    std::vector<long long> end((std::size_t) w, -1);
+    vt_mpi_run(w, seed, [&](MPI_Comm comm, int rank) {
+        rank_obs* mine = &o[(std::size_t) rank];
+        std::vector<std::size_t> calls{t};
+        if (kind == 0)
+        {
+            auto f = [mine, k](hep::mc_point<T> const&) { if (mine->calls == 0) mine->first = last_pos - k; ++mine->calls; return T(1); };
+            auto chk = hep::make_plain_chkpt<T, E>(E());
+            using C = decltype(chk);
+            auto r = hep::mpi_plain(comm, hep::make_integrand<T>(f, 1), calls, chk, hep::mpi_callback<C>(hep::callback_mode::silent));
+            end[(std::size_t) rank] = (long long) r.generator().pos();
+        }
+        else
+        {
+            auto f = [mine, k](hep::vegas_point<T> const&) { if (mine->calls == 0) mine->first = last_pos - k; ++mine->calls; return T(1); };
+            auto chk = hep::make_vegas_chkpt<T, E>(4, T(1.5), E());
+            using C = decltype(chk);
+            auto r = hep::mpi_vegas(comm, hep::make_integrand<T>(f, 1), calls, chk, hep::mpi_callback<C>(hep::callback_mode::silent));
+            end[(std::size_t) rank] = (long long) r.generator().pos();
+        }
+    }, false, 0);
+    for (int r = 0; r != w; ++r)
+    {
+        long long sub = o[(std::size_t) r].calls;
+        long long before = (long long) hep::discard_before(t, (std::size_t) r, (std::size_t) w);
+        long long after = (long long) hep::discard_after(t, (std::size_t) sub, (std::size_t) r, (std::size_t) w);
+        vt::ev("Share").s("src", src).i("t", (long long) t).i("w", w).i("r", r).i("before", before).i("sub", sub).i("after", after)
+            .i("first", o[(std::size_t) r].first).i("usage", k).i("end", end[(std::size_t) r]).i("suboff", 0).i("prev", 0).emit();
+    }
+}
+
 // kind 0 = plain, 1 = vegas, 2 = multi channel
 template <typename T>
 static void observe(int kind, std::size_t t, int w, unsigned long long seed, std::vector<rank_obs>& o, std::vector<long long>& end,
@@ -127,6 +188,11 @@ int main(int argc, char** argv)
         {
             emit_small(0, t, w, seed + t);
             if (w <= 9 && t <= 20) { emit_small(1, t, w, seed + t); emit_small(2, t, w, seed + t); emit_small(3, t, w, seed + t); }
+            if (w <= 5 && t <= 9)
+            {
+                emit_odd<long double, pos_engine<4294967291ULL>>(0, t, w, seed + t, "mpi_plain-odd-range-ld");
+                emit_odd<double, pos_engine<134217689ULL>>(1, t, w, seed + t, "mpi_vegas-odd-range-d");
+            }
             if (w >= 2 && w <= 6 && t <= 12)
             {
                 // the communicator is a sub-communicator of a larger world (ranks shifted by 1 or w)
